@@ -105,7 +105,11 @@ def same(a, b, rtol=1e-6, atol=0.0):
     a64, b64 = a64[~inf], b64[~inf]
     if a64.numel() == 0:
         return True
-    tol = atol + rtol * torch.maximum(a64.abs(), b64.abs())
+    # relative to each entry AND to the scale of the tensor: an entry that is tiny compared with the tensor's scale is a saturated /
+    # cancelling float value (e.g. sigmoid(-200)^2 ~ 1e-15 next to entries ~ 1) whose last bits depend on the memory layout the
+    # vectorised kernels saw; a stale value differs by the size of the change that was missed, not by 1e-6 of the scale
+    scale = torch.clamp(torch.maximum(a64.abs().max(), b64.abs().max()), max=1e6)
+    tol = atol + rtol * torch.maximum(a64.abs(), b64.abs()) + rtol * scale
     return bool(((a64 - b64).abs() <= tol).all())
 
 
@@ -390,20 +394,29 @@ def indwise_by_perturbation(dag, indep, ind_vars, n):
     def val(x):
         return x.value if isinstance(x, WeightedTensor) else x
 
+    from vf.refmodel import dagref
+
+    up = dagref.closure(list(dag.variables), {k: set(dag.direct_ancestors[k]) for k in dag.variables})
     for name in dag.variables:
         a, b = base[name], moved[name]
-        if isinstance(a, Unset) or isinstance(b, Unset):
+        related = name in ind_vars or any(v in up[name] for v in ind_vars)
+        if not related:
+            indwise.add(name)  # does not depend on any individual latent variable: always safe to read
+            continue
+        if isinstance(a, (Unset, Raised)) or isinstance(b, (Unset, Raised)):
             continue
         a, b = val(a), val(b)
+        if a.is_floating_point() and not (torch.isfinite(a).all() and torch.isfinite(b).all()):
+            continue  # the perturbation test is blind on non-finite values: conservatively NOT readable before a partial revert
         has_axis = a.ndim >= 1 and a.shape[0] == n
         if has_axis:
             axis.add(name)
         if a.shape != b.shape:
             continue
         diff = ~((a == b) | (torch.isnan(a) & torch.isnan(b))) if a.is_floating_point() else (a != b)
-        if not diff.any():
-            indwise.add(name)  # unrelated to individual latent values: always safe to read
-        elif has_axis and not diff[1:].any():
+        # a node that depends on individual latent variables is individual-wise only if it carries the axis and only row 0 moved
+        # (a 0-d total that did not move at float precision - e.g. dominated by one 1e22 term - is still an aggregate)
+        if has_axis and diff[0].any() and not diff[1:].any():
             indwise.add(name)
     return indwise, axis
 
